@@ -8,18 +8,32 @@ NOTES = {
  'C04-m1': 'missed by the first version (Interest lifetimes 1..3 only); lifetime 0 and absent lifetime added to NdnFibMC templates and the random driver; caught since',
  'C05-m2': 'missed by the first version (ApplicationParameters never empty); empty parameters (field pe) added to the gate templates and the random driver; caught since',
  'C10-m2': 'missed by the first version (unknown headers had even type numbers only); envelope kind "lpo" (Sequence + unknown odd-numbered headers) added; caught since',
+ 'C11-m1': 'missed at first (family names stopped at length 3); stage B names up to length 4 + generator reusing a temporary twice; caught since',
+ 'C12-m1': 'missed at first; generator now produces twin redefinitions (same rule id, same name, different signers) and asks all pairs of rule-matching names; caught since',
+ 'C14-m1': 'missed at first (every validation ran in a fresh task, fetch outcomes fixed per world); per-instance context + Heal stimulus added; caught since',
+ 'C17-m2': 'missed at first (root prefix never registered); root prefix "/" and a reverse make_command_v2 check added; caught since',
+ 'C01-n2': 'a wrong parameters-digest VALUE on a well-formed wire: outside C01 (layout/round trip) by our reading, caught by C02 (check-C02.txt)',
+ 'C06-n1': 'missed at first (data and end of stream never arrived in the same instant); FeedEof action added to Framing/FramingTrace and the executor; caught since',
+ 'C06-n2': 'missed at first (Nack header around Data only for unaddressed names); Nack-around-addressed-Data junk class added; caught since',
+ 'C07-n2': 'missed at first (multi-line PrintT records dropped by the parser; nested SignatureInfo sequences thin); parser fixed, nested sequences and systematic structural edits added; caught since',
+ 'C12-n2': 'missed at first (each schema compiled once); every schema is now compiled twice with another compile in between and the second model judged; caught since',
+ 'C18-n2': 'missed at first (when suppression starts was left open); OutdatedStartsSuppression added; caught since',
+ 'C19-n1': 'harness crashed at first (exit 2) on an Interest for an unpublished name; deep (versioned) names added and the trace now ends/rejects there; caught since',
+ 'C19-n2': 'Nack reasons 50/100/150 rotated (was 150 only); caught',
 }
 rows = []
-for d in sorted(glob.glob(ROOT + '/C*-m*')):
+for d in sorted(glob.glob(ROOT + '/C*-[mn]*')):
     sid = os.path.basename(d)
     prop = sid.split('-')[0]
     notes = open(os.path.join(d, 'notes.md')).read() if os.path.exists(os.path.join(d, 'notes.md')) else ''
     chk = ''
     for f in sorted(glob.glob(os.path.join(d, 'check-*.txt'))):
         chk += open(f).read()
+    own = open(os.path.join(d, 'check-%s.txt' % prop)).read() if os.path.exists(os.path.join(d, 'check-%s.txt' % prop)) else chk
     sigs = sorted(set(re.findall(r'signature: (\S+)', chk)))
     viol = re.findall(r'VIOLATION property=(\S+) replay=\S*/([^/\s]+)\.json', chk)
     nviol = len(re.findall(r'^VIOLATION', chk, re.M))
+    own_viol = len(re.findall(r'^VIOLATION', own, re.M))
     m = re.search(r'violations=(\d+)', chk)
     caught = nviol > 0
     pt = open(os.path.join(d, 'pytest.txt')).read().strip() if os.path.exists(os.path.join(d, 'pytest.txt')) else ''
@@ -37,7 +51,7 @@ for d in sorted(glob.glob(ROOT + '/C*-m*')):
             'commands': ['dev/try_seed.sh %s %s' % (prop, sid.split('-')[1]),
                          'VERIF_REPO=<worktree with patch.diff applied> bin/check %s --tier quick' % prop],
         },
-        'check_result': 'caught' if caught else 'MISSED',
+        'check_result': 'caught' if own_viol > 0 else ('caught by another property\'s check' if caught else 'MISSED'),
         'violation_replays': [v[1] for v in viol][:8],
         'history': NOTES.get(sid, ''),
     }
@@ -49,7 +63,7 @@ with open(os.path.join(ROOT, 'INDEX.md'), 'w') as f:
     f.write('| id | result | first violation replay name | history |\n|---|---|---|---|\n')
     for r in rows:
         f.write('| %s | %s | %s | %s |\n' % (r['id'], r['check_result'], (r['violation_replays'] or ['-'])[0][:90], r['history']))
-    n = sum(1 for r in rows if r['check_result'] == 'caught')
+    n = sum(1 for r in rows if r['check_result'].startswith('caught'))
     f.write('\n%d of %d caught by the quick tier at the time this index was generated.\n' % (n, len(rows)))
-print(sum(1 for r in rows if r['check_result'] == 'caught'), len(rows))
-print([r['id'] for r in rows if r['check_result'] != 'caught'])
+print(sum(1 for r in rows if r['check_result'].startswith('caught')), len(rows))
+print([r['id'] for r in rows if not r['check_result'].startswith('caught')])
